@@ -293,8 +293,8 @@ def visit(visitor, obj, attr, cff):
             else:
                 setattr(topDict, attr, visitor.scale(value))
 
-        for i in range(6):
-            topDict.FontMatrix[i] /= visitor.scaleFactor
+        # (a new list: the matrix may be the default value that all fonts share)
+        topDict.FontMatrix = [v / visitor.scaleFactor for v in topDict.FontMatrix]
 
         for private in privates:
             for attr in (
